@@ -30,7 +30,9 @@ def run(ctx):
     mutators(ctx, P)
     header_freshness(ctx, P)
     version_conditional_fields(ctx, P)
+    cumulative_count_check_agrees(ctx, P)
     mpi_padding_order(ctx, P)
+    raw_mpi_only_from_parsed_data(ctx, P)
     stored_length_encoding(ctx, P)
     s2k_usage_tables(ctx, P)
     tag_tables(ctx, P)
@@ -123,6 +125,40 @@ def r_len(ctx, P, only=None, floors=(70, 55)):
         analysed.append(k)
         ctx.ok(key, 'R-len', 'write_len of %s is the same guarded sum of terms as the bytes to_writer emits' % k, function=pairs[k]['write_len'],
                count=len(w.terms))
+    # fallback for the pairs whose conditional fixed octets the term comparison cannot pair up: DEPENDENCE agreement.  The fields of
+    # `self` that the writer branches on must be the fields the announced length branches on, and vice versa - a length that
+    # ignores a field the writer branches on (or the other way round) is wrong for some value of that field.
+    for rec in und:
+        k = rec['impl']
+        if only and not re.search(only, k):
+            continue
+        if k in rev:
+            continue
+        T = serlen.short_ty(k).split('<')[0].split('::')[-1]
+        wb, lb = ctx.wrap(f.bodies[pairs[k]['to_writer']]), ctx.wrap(f.bodies[pairs[k]['write_len']])
+        def self_fields(b, ops):
+            out = set()
+            for og in ops:
+                for tok in og:
+                    m = re.match(r'field:%s(?:::\w+)?\.(\w+)$' % re.escape(T), tok)
+                    if m:
+                        out.add(m.group(1))
+            return out
+        # conditions only: which fields DECIDE how many octets are written / announced (not the fields that are merely written)
+        def decisions(b):
+            out = []
+            for i, _ in b.switches():
+                info = enum_switch_info(b, i)
+                if info is not None and info[0].split('::')[-1] in ('Result', 'ControlFlow'):
+                    continue        # `?` on a write result: error propagation, not a layout decision
+                out.append(b.switch_origins(i))
+            return out
+        wops, lops = decisions(wb), decisions(lb)
+        wf, lf = self_fields(wb, wops), self_fields(lb, lops)
+        # fields the writer only passes on verbatim to nested writers show up in the length through their own write_len(): both sides see them
+        ctx.check('%s:S05-1:R-len-deps:%s' % (P, k), 'R-sib', 'the announced length of %s depends on the same fields of the value as the octets its writer emits' % k,
+                  wf == lf, function=pairs[k]['write_len'], table=dict(writer=sorted(wf), announced=sorted(lf)),
+                  missing=None if wf == lf else 'writer depends on %s, announced length on %s' % (sorted(wf - lf) or '-', sorted(lf - wf) or '-'))
     ctx.floor(P + ':S05-1:floor:pairs', 'to_writer/write_len pairs found', len(pairs), floors[0])
     ctx.floor(P + ':S05-1:floor:analysed', 'pairs fully analysed and equal', len(analysed), floors[1])
     ctx.extra = dict(getattr(ctx, 'extra', {}), rlen_pairs=len(pairs), rlen_equal=len(analysed), rlen_unanalysed=unan, rlen_undecided=und,
@@ -449,6 +485,100 @@ def version_conditional_fields(ctx, P):
         wg = [i for i, t in wb.switches() if has_origin(wb.switch_origins(i), r'param:3$') and has_origin(wb.switch_origins(i), V6)]
         ctx.check(P + ':S05-10:version-tests-agree', 'R-sib', 'serialiser, length query and parser test the key version at the same three places (cumulative length, AEAD arm, CFB arm)',
                   len(lg) == len(wg) == len(pg) == 3, function=lb.path, table=dict(write_len=len(lg), to_writer=len(wg), parser=len(pg)))
+
+
+def cumulative_count_check_agrees(ctx, P):
+    """If the parser of the protection parameters checks the v6 cumulative count octet against a recomputed sum of field sizes, the
+    number of ONE-OCTET fields it adds per protection variant must be the number of one-octet fields it has just read for that
+    variant in a v6 packet (cipher, AEAD mode, S2K specifier length) - otherwise it refuses what the serialiser writes.  (No check at
+    all - today's tree, the octet is only refused when 0 - is consistent by default.)"""
+    pb = ctx.body('types::params::secret::parse_secret_fields')
+    if pb is None:
+        return
+    dom = pb.dominators()
+    V6 = r'agg:types::packet::KeyVersion::V6$'
+    v6sw = [i for i, t in pb.switches() if has_origin(pb.switch_origins(i), r'param:1$') and has_origin(pb.switch_origins(i), V6)]
+    reads = [(i, t) for i, t in pb.calls(r'BufReadParsing::read_u8$')]
+    guarded = sorted((pb.line(i), i) for i, t in reads if any(g in dom.get(i, ()) for g in v6sw))
+    if not guarded:
+        ctx.missing(P + ':S05-10:count-octet:anchor', 'no v6-guarded one-octet read in parse_secret_fields')
+        return
+    cum = guarded[0][1]
+    tok = r'cs:.*BufReadParsing::read_u8#%d$' % cum
+    helpers = set()
+    checks = []
+    for i, t in pb.switches():
+        og = pb.switch_origins(i)
+        if not has_origin(og, tok):
+            continue
+        hs = [x[5:] for x in og if x.startswith('call:types::params::secret::') and ctx.f.body(x[5:]) is not None and x[5:] != pb.path]
+        if (has_origin(og, r'op:Add') and has_origin(og, r'call:.*::(len|write_len)$')) or hs:
+            checks.append(i)
+            helpers.update(hs)
+    if not checks:
+        ctx.ok(P + ':S05-10:count-octet-check-agrees', 'R-sib', 'the v6 cumulative count octet is not compared with a recomputed sum (only refused when 0): nothing to agree with', function=pb.path)
+        return
+    # one-octet reads per S2kUsage arm (v6-conditional ones included; the usage octet and the cumulative octet themselves are read before the match)
+    per_usage = collections.Counter()
+    for i, t in reads:
+        for a, vs in arm_context(pb, i, dom):
+            if a == 'S2kUsage' and len(vs) == 1:
+                per_usage[vs[0]] += 1
+    # one-octet constants per S2kParams arm in the recomputed sum
+    per_params = collections.Counter()
+    back = pb.can_reach(set(checks))
+    bodies = [(pb, dom, back)]
+    for h in sorted(helpers):
+        hb = ctx.wrap(ctx.f.body(h))
+        bodies.append((hb, hb.dominators(), None))
+    for xb, xdom, xback in bodies:
+        for i, blk in enumerate(xb.blocks):
+            if blk['c'] or (xback is not None and i not in xback):
+                continue
+            arms = [vs for a, vs in arm_context(xb, i, xdom) if a == 'S2kParams']
+            if not arms:
+                continue
+            for st in blk['s']:
+                r_ = st['r']
+                if r_['k'] == 'bin' and r_['op'].startswith('Add'):
+                    for o in r_['o']:
+                        if 'k' in o and isinstance(o['k'].get('v'), int):
+                            for v in min(arms, key=len):
+                                per_params[v] += o['k']['v']
+    bad = {}
+    for v in ('Aead', 'Cfb', 'MalleableCfb', 'LegacyCfb'):
+        if v in per_params or per_usage.get(v):
+            if per_params.get(v, 0) != per_usage.get(v, 0):
+                bad[v] = (per_params.get(v, 0), per_usage.get(v, 0))
+    ctx.check(P + ':S05-10:count-octet-check-agrees', 'R-sib', 'per protection variant, the recomputed size checked against the v6 cumulative count octet counts as many one-octet fields as were read',
+              not bad, function=pb.path, site=site(pb, checks[0]), table=dict(in_check=dict(per_params), read=dict(per_usage)),
+              missing=None if not bad else 'one-octet fields (in the check, read from the packet): %s - a packet the serialiser writes is refused' % bad)
+
+
+def raw_mpi_only_from_parsed_data(ctx, P):
+    """`Mpi::from_raw` keeps its octets as they are, leading zero octets included; written out, such an MPI announces a bit count that
+    covers fewer octets than follow (248 bits, 32 octets) and cannot be read back.  It may only carry octets that were STORED from a
+    parsed MPI (the opaque material of an unsupported curve); the octets of a fixed-width scalar (`to_bytes*()`, `as_bytes()`) go
+    through the stripping constructor `Mpi::from_slice`, as its sibling arms do."""
+    n = 0
+    bad = []
+    for p, r in sorted(ctx.f.bodies.items()):
+        if '::tests::' in p or r.get('derived'):
+            continue
+        b = ctx.wrap(r)
+        cs = b.calls(r'types::mpi::Mpi::from_raw$')
+        if not cs:
+            ctx.functions.discard(p)
+            continue
+        for i, t in cs:
+            n += 1
+            og = b.operand_origins(t['args'][0]) if t['args'] else set()
+            scalar = [x for x in og if re.search(r'^call:.*::(to_bytes_rev|to_bytes|as_bytes|to_bytes_be|to_be_bytes)$', x)]
+            if scalar:
+                bad.append((p, site(b, i), scalar[0][5:]))
+    ctx.check(P + ':S05-11:raw-mpi-only-from-parsed-data', 'R-who', 'Mpi::from_raw is never handed the octets of a fixed-width scalar (%d call sites)' % n,
+              not bad and n >= 1, function=bad[0][0] if bad else 'types::mpi::Mpi::from_raw', site=bad[0][1] if bad else None,
+              missing=None if not bad else '%s passes the result of %s to Mpi::from_raw: a scalar whose top octet is zero is written as an MPI that cannot be read back' % (bad[0][0], bad[0][2]))
 
 
 def mpi_padding_order(ctx, P):
